@@ -1,10 +1,190 @@
 /* Correspondence harness for the container layer (C19, C14): drives the real
  * ares_array / ares_llist / ares_slist / ares_htable_* / ares_buf code in-process. */
 #include "ares_private.h"
+#include "dsa/ares_htable.h"
+#include "dsa/ares_slist.h"
 #include "hcommon.h"
+#include <stdint.h>
 
 #define MAXH 64
+
+/* ------------------------------------------------------------------------------------------
+ * Allocator installed through ares_library_init_mem(): failure schedule (`alloc failnth k`), call counter
+ * (`alloc count`), ledger (live blocks must be 0 after a case has been torn down) and zero-filled
+ * blocks, so that bytes the library never wrote are deterministic.  Block sizes are kept in a side table
+ * (no in-band header) so that ASan red zones stay exact. */
+#define ATAB (1u << 16)
+static struct {
+  void  *p;
+  size_t n;
+} a_tab[ATAB];
+static size_t a_calls   = 0; /* allocation calls (malloc + realloc) since the last `alloc count` */
+static long   a_fail_in = 0; /* the a_fail_in-th allocation call from now fails (0 = none) */
+static long   a_live    = 0; /* live blocks */
+
+static unsigned a_slot(void *p)
+{
+  unsigned i = (unsigned)(((size_t)p >> 4) * 2654435761u) & (ATAB - 1);
+  while (a_tab[i].p != p && a_tab[i].p != NULL) {
+    i = (i + 1) & (ATAB - 1);
+  }
+  return i;
+}
+
+static void a_put(void *p, size_t n)
+{
+  unsigned i = a_slot(p);
+  a_tab[i].p = p;
+  a_tab[i].n = n;
+}
+
+static size_t a_take(void *p)
+{
+  unsigned i = a_slot(p), j;
+  size_t   n;
+  if (a_tab[i].p != p) {
+    fprintf(stderr, "h_dsa: free/realloc of a block the library did not allocate\n");
+    abort();
+  }
+  n = a_tab[i].n;
+  /* open addressing delete: re-insert the cluster that follows */
+  a_tab[i].p = NULL;
+  for (j = (i + 1) & (ATAB - 1); a_tab[j].p != NULL; j = (j + 1) & (ATAB - 1)) {
+    void  *q  = a_tab[j].p;
+    size_t qn = a_tab[j].n;
+    a_tab[j].p = NULL;
+    a_put(q, qn);
+  }
+  return n;
+}
+
+static int a_should_fail(void)
+{
+  a_calls++;
+  if (a_fail_in > 0 && --a_fail_in == 0) {
+    return 1;
+  }
+  return 0;
+}
+
+static void *h_malloc(size_t size)
+{
+  void *p;
+  if (a_should_fail() || size == 0) {
+    return NULL;
+  }
+  p = calloc(1, size);
+  if (p == NULL) {
+    abort();
+  }
+  a_put(p, size);
+  a_live++;
+  return p;
+}
+
+static void h_free(void *p)
+{
+  if (p == NULL) {
+    return;
+  }
+  a_take(p);
+  a_live--;
+  free(p);
+}
+
+static void *h_realloc(void *p, size_t size)
+{
+  size_t old;
+  void  *q;
+  if (p == NULL) {
+    return h_malloc(size);
+  }
+  if (a_should_fail()) {
+    return NULL;
+  }
+  old = a_take(p);
+  q   = realloc(p, size);
+  if (q == NULL) {
+    abort();
+  }
+  if (size > old) {
+    memset((unsigned char *)q + old, 0, size - old);
+  }
+  a_put(q, size);
+  return q;
+}
+
 static ares_array_t *arrs[MAXH];
+static void          buf_drop(int h);
+static void          sl_reset(void);
+static void          ll_reset(void);
+
+/* ------------------------------------------------------------------------------------------ hash tables */
+enum { HT_NONE = 0, HT_SZVP, HT_STRVP, HT_ASVP, HT_VPVP, HT_VPSTR, HT_DICT, HT_RAW };
+static struct {
+  int   kind;
+  void *h;
+} hts[MAXH];
+
+/* `raw`: ares_htable_t used directly with an identity hash, so that the generator decides which keys
+ * share a bucket at which table size (collision chains, the pre-allocation logic of the expansion) and
+ * the model can predict every allocation. */
+typedef struct {
+  size_t key;
+  size_t val;
+} raw_bucket_t;
+
+static unsigned int raw_hash(const void *key, unsigned int seed)
+{
+  (void)seed;
+  return (unsigned int)(*(const size_t *)key);
+}
+
+static const void *raw_key(const void *bucket)
+{
+  return &((const raw_bucket_t *)bucket)->key;
+}
+
+static void raw_free(void *bucket)
+{
+  ares_free(bucket);
+}
+
+static ares_bool_t raw_eq(const void *k1, const void *k2)
+{
+  return *(const size_t *)k1 == *(const size_t *)k2 ? ARES_TRUE : ARES_FALSE;
+}
+
+static void ht_destroy(int h)
+{
+  switch (hts[h].kind) {
+    case HT_SZVP:
+      ares_htable_szvp_destroy(hts[h].h);
+      break;
+    case HT_STRVP:
+      ares_htable_strvp_destroy(hts[h].h);
+      break;
+    case HT_ASVP:
+      ares_htable_asvp_destroy(hts[h].h);
+      break;
+    case HT_VPVP:
+      ares_htable_vpvp_destroy(hts[h].h);
+      break;
+    case HT_VPSTR:
+      ares_htable_vpstr_destroy(hts[h].h);
+      break;
+    case HT_DICT:
+      ares_htable_dict_destroy(hts[h].h);
+      break;
+    case HT_RAW:
+      ares_htable_destroy(hts[h].h);
+      break;
+    default:
+      break;
+  }
+  hts[h].kind = HT_NONE;
+  hts[h].h    = NULL;
+}
 
 static void reset_all(void)
 {
@@ -14,6 +194,19 @@ static void reset_all(void)
       ares_array_destroy(arrs[i]);
       arrs[i] = NULL;
     }
+    if (hts[i].kind != HT_NONE) {
+      ht_destroy(i);
+    }
+    buf_drop(i);
+  }
+  sl_reset();
+  ll_reset();
+  a_fail_in = 0;
+  a_calls   = 0;
+  /* ledger: everything the case allocated must have been released by the containers' destructors */
+  if (a_live != 0) {
+    printf("!MON leak %ld block(s) still allocated after all containers of the case were destroyed\n", a_live);
+    a_live = 0;
   }
 }
 
@@ -69,6 +262,8 @@ static void do_arr(int nt, char **t)
     puts(ststr(ares_array_insertdata_first(a, &a1)));
   } else if (!strcmp(cmd, "inslast") && nt == 4) {
     puts(ststr(ares_array_insertdata_last(a, &a1)));
+  } else if (!strcmp(cmd, "setsize") && nt == 4) {
+    puts(ststr(ares_array_set_size(a, a1)));
   } else if (!strcmp(cmd, "rm") && nt == 4) {
     puts(ststr(ares_array_remove_at(a, a1)));
   } else if (!strcmp(cmd, "rmfirst") && nt == 3) {
@@ -127,11 +322,863 @@ static void do_arr(int nt, char **t)
   }
 }
 
+
+static int cmp_sz(const void *a, const void *b)
+{
+  size_t x = *(const size_t *)a, y = *(const size_t *)b;
+  return x < y ? -1 : (x > y ? 1 : 0);
+}
+
+static int cmp_str(const void *a, const void *b)
+{
+  return strcmp(*(char *const *)a, *(char *const *)b);
+}
+
+static void do_ht(int nt, char **t)
+{
+  const char   *cmd = t[1];
+  int           h   = atoi(t[2]);
+  int           kind;
+  void         *p;
+  static char   kbuf[4096], vbuf[4096];
+  size_t        nk  = 0;
+  const char   *ks  = kbuf, *vs = vbuf;
+  if (h < 0 || h >= MAXH) {
+    puts("bad-handle");
+    return;
+  }
+  if (!strcmp(cmd, "new") && nt == 4) {
+    if (hts[h].kind != HT_NONE) {
+      ht_destroy(h);
+    }
+    if (!strcmp(t[3], "szvp")) {
+      hts[h].kind = HT_SZVP;
+      hts[h].h    = ares_htable_szvp_create(NULL);
+    } else if (!strcmp(t[3], "strvp")) {
+      hts[h].kind = HT_STRVP;
+      hts[h].h    = ares_htable_strvp_create(NULL);
+    } else if (!strcmp(t[3], "asvp")) {
+      hts[h].kind = HT_ASVP;
+      hts[h].h    = ares_htable_asvp_create(NULL);
+    } else if (!strcmp(t[3], "vpvp")) {
+      hts[h].kind = HT_VPVP;
+      hts[h].h    = ares_htable_vpvp_create(NULL, NULL);
+    } else if (!strcmp(t[3], "vpstr")) {
+      hts[h].kind = HT_VPSTR;
+      hts[h].h    = ares_htable_vpstr_create();
+    } else if (!strcmp(t[3], "dict")) {
+      hts[h].kind = HT_DICT;
+      hts[h].h    = ares_htable_dict_create();
+    } else if (!strcmp(t[3], "raw")) {
+      hts[h].kind = HT_RAW;
+      hts[h].h    = ares_htable_create(raw_hash, raw_key, raw_free, raw_eq);
+    } else {
+      puts("bad-op");
+      return;
+    }
+    if (hts[h].h == NULL) {
+      hts[h].kind = HT_NONE;
+      puts("nomem");
+    } else {
+      puts("ok");
+    }
+    return;
+  }
+  kind = hts[h].kind;
+  p    = hts[h].h;
+  if (kind == HT_NONE) {
+    puts("bad-handle");
+    return;
+  }
+  /* keys: decimal numbers, or hex text for the string-keyed tables; values: numbers or hex text */
+  if (nt > 3) {
+    if (kind == HT_STRVP || kind == HT_DICT) {
+      size_t n = h_unhex(t[3], (unsigned char *)kbuf, sizeof(kbuf) - 1);
+      kbuf[n]  = 0;
+    } else {
+      nk = (size_t)strtoul(t[3], NULL, 10);
+    }
+  }
+  if (nt > 4) {
+    if (kind == HT_VPSTR || kind == HT_DICT) {
+      size_t n = h_unhex(t[4], (unsigned char *)vbuf, sizeof(vbuf) - 1);
+      vbuf[n]  = 0;
+    }
+  }
+  if (!strcmp(cmd, "put") && nt == 5) {
+    size_t      nv = (size_t)strtoul(t[4], NULL, 10);
+    ares_bool_t ok = ARES_FALSE;
+    switch (kind) {
+      case HT_SZVP:
+        ok = ares_htable_szvp_insert(p, nk, (void *)nv);
+        break;
+      case HT_STRVP:
+        ok = ares_htable_strvp_insert(p, ks, (void *)nv);
+        break;
+      case HT_ASVP:
+        ok = ares_htable_asvp_insert(p, (ares_socket_t)nk, (void *)nv);
+        break;
+      case HT_VPVP:
+        ok = ares_htable_vpvp_insert(p, (void *)nk, (void *)nv);
+        break;
+      case HT_VPSTR:
+        ok = ares_htable_vpstr_insert(p, (void *)nk, vs);
+        break;
+      case HT_DICT:
+        ok = ares_htable_dict_insert(p, ks, vs);
+        break;
+      case HT_RAW:
+        {
+          raw_bucket_t *b = ares_malloc(sizeof(*b));
+          if (b != NULL) {
+            b->key = nk;
+            b->val = nv;
+            ok     = ares_htable_insert(p, b);
+            if (!ok) {
+              ares_free(b);
+            }
+          }
+        }
+        break;
+    }
+    puts(ok ? "ok" : "err");
+  } else if (!strcmp(cmd, "get") && nt == 4) {
+    void       *v   = NULL;
+    const char *sv  = NULL;
+    ares_bool_t ok  = ARES_FALSE;
+    int         str = 0;
+    switch (kind) {
+      case HT_SZVP:
+        ok = ares_htable_szvp_get(p, nk, &v);
+        break;
+      case HT_STRVP:
+        ok = ares_htable_strvp_get(p, ks, &v);
+        break;
+      case HT_ASVP:
+        ok = ares_htable_asvp_get(p, (ares_socket_t)nk, &v);
+        break;
+      case HT_VPVP:
+        ok = ares_htable_vpvp_get(p, (void *)nk, &v);
+        break;
+      case HT_VPSTR:
+        ok  = ares_htable_vpstr_get(p, (void *)nk, &sv);
+        str = 1;
+        break;
+      case HT_DICT:
+        ok  = ares_htable_dict_get(p, ks, &sv);
+        str = 1;
+        break;
+      case HT_RAW:
+        {
+          raw_bucket_t *b = ares_htable_get(p, &nk);
+          ok              = b != NULL;
+          v               = b ? (void *)b->val : NULL;
+        }
+        break;
+    }
+    if (!ok) {
+      puts("none");
+    } else if (str) {
+      h_hex((const unsigned char *)sv, strlen(sv));
+      puts("");
+    } else {
+      printf("%lu\n", (unsigned long)(size_t)v);
+    }
+  } else if (!strcmp(cmd, "claim") && nt == 4 && kind == HT_STRVP) {
+    /* values are >= 1, so NULL means "no such key" */
+    void *v = ares_htable_strvp_claim(p, ks);
+    if (v == NULL) {
+      puts("none");
+    } else {
+      printf("%lu\n", (unsigned long)(size_t)v);
+    }
+  } else if (!strcmp(cmd, "del") && nt == 4) {
+    ares_bool_t ok = ARES_FALSE;
+    switch (kind) {
+      case HT_SZVP:
+        ok = ares_htable_szvp_remove(p, nk);
+        break;
+      case HT_STRVP:
+        ok = ares_htable_strvp_remove(p, ks);
+        break;
+      case HT_ASVP:
+        ok = ares_htable_asvp_remove(p, (ares_socket_t)nk);
+        break;
+      case HT_VPVP:
+        ok = ares_htable_vpvp_remove(p, (void *)nk);
+        break;
+      case HT_VPSTR:
+        ok = ares_htable_vpstr_remove(p, (void *)nk);
+        break;
+      case HT_DICT:
+        ok = ares_htable_dict_remove(p, ks);
+        break;
+      case HT_RAW:
+        ok = ares_htable_remove(p, &nk);
+        break;
+    }
+    puts(ok ? "ok" : "none");
+  } else if (!strcmp(cmd, "count") && nt == 3) {
+    size_t n = 0;
+    switch (kind) {
+      case HT_SZVP:
+        n = ares_htable_szvp_num_keys(p);
+        break;
+      case HT_STRVP:
+        n = ares_htable_strvp_num_keys(p);
+        break;
+      case HT_ASVP:
+        n = ares_htable_asvp_num_keys(p);
+        break;
+      case HT_VPVP:
+        n = ares_htable_vpvp_num_keys(p);
+        break;
+      case HT_VPSTR:
+        n = ares_htable_vpstr_num_keys(p);
+        break;
+      case HT_DICT:
+        n = ares_htable_dict_num_keys(p);
+        break;
+      case HT_RAW:
+        n = ares_htable_num_keys(p);
+        break;
+    }
+    printf("%lu\n", (unsigned long)n);
+  } else if (!strcmp(cmd, "keys") && nt == 3) {
+    /* key dumps are sorted: the hash order is not observable behaviour */
+    size_t n = 0, i;
+    if ((kind == HT_ASVP && ares_htable_asvp_num_keys(p) == 0) || (kind == HT_DICT && ares_htable_dict_num_keys(p) == 0) ||
+        (kind == HT_RAW && ares_htable_num_keys(p) == 0)) {
+      puts("[]");
+    } else if (kind == HT_ASVP) {
+      ares_socket_t *ks2 = ares_htable_asvp_keys(p, &n);
+      size_t        *sz  = n ? malloc(n * sizeof(*sz)) : NULL;
+      if (ks2 == NULL && ares_htable_asvp_num_keys(p) != 0) {
+        puts("nomem");
+        return;
+      }
+      for (i = 0; i < n; i++) {
+        sz[i] = (size_t)ks2[i];
+      }
+      qsort(sz, n, sizeof(*sz), cmp_sz);
+      fputc('[', stdout);
+      for (i = 0; i < n; i++) {
+        printf("%s%lu", i ? " " : "", (unsigned long)sz[i]);
+      }
+      puts("]");
+      free(sz);
+      ares_free(ks2);
+    } else if (kind == HT_DICT) {
+      char **ks2 = ares_htable_dict_keys(p, &n);
+      if (ks2 == NULL && ares_htable_dict_num_keys(p) != 0) {
+        puts("nomem");
+        return;
+      }
+      qsort(ks2, n, sizeof(*ks2), cmp_str);
+      fputc('[', stdout);
+      for (i = 0; i < n; i++) {
+        if (i) {
+          fputc(' ', stdout);
+        }
+        h_hex((const unsigned char *)ks2[i], strlen(ks2[i]));
+      }
+      puts("]");
+      ares_free_array(ks2, n, ares_free);
+    } else if (kind == HT_RAW) {
+      const void **bs = ares_htable_all_buckets(p, &n);
+      size_t      *sz = n ? malloc(n * sizeof(*sz)) : NULL;
+      if (bs == NULL && ares_htable_num_keys(p) != 0) {
+        puts("nomem");
+        return;
+      }
+      for (i = 0; i < n; i++) {
+        sz[i] = ((const raw_bucket_t *)bs[i])->key;
+      }
+      qsort(sz, n, sizeof(*sz), cmp_sz);
+      fputc('[', stdout);
+      for (i = 0; i < n; i++) {
+        printf("%s%lu", i ? " " : "", (unsigned long)sz[i]);
+      }
+      puts("]");
+      free(sz);
+      ares_free(bs);
+    } else {
+      puts("unsupported");
+    }
+  } else {
+    puts("bad-op");
+  }
+}
+
+/* ------------------------------------------------------------------------------------------ byte buffers */
+static ares_buf_t    *bufs[MAXH];
+static unsigned char *bufconst[MAXH]; /* backing store of const buffers (plain malloc: not in the ledger) */
+#define BIGBUF 70000
+static unsigned char big[BIGBUF];
+
+static void buf_drop(int h)
+{
+  if (bufs[h]) {
+    ares_buf_destroy(bufs[h]);
+    bufs[h] = NULL;
+  }
+  free(bufconst[h]);
+  bufconst[h] = NULL;
+}
+
+static void put_hex_line(const unsigned char *p, size_t n)
+{
+  h_hex(p, n);
+  puts("");
+}
+
+static void do_buf(int nt, char **t)
+{
+  const char   *cmd = t[1];
+  int           h   = atoi(t[2]);
+  unsigned long a1  = nt > 3 ? strtoul(t[3], NULL, 10) : 0;
+  ares_buf_t   *b;
+  if (h < 0 || h >= MAXH) {
+    puts("bad-handle");
+    return;
+  }
+  if (!strcmp(cmd, "new") && nt == 3) {
+    buf_drop(h);
+    bufs[h] = ares_buf_create();
+    puts(bufs[h] ? "ok" : "nomem");
+    return;
+  }
+  if (!strcmp(cmd, "const") && nt == 4) {
+    size_t n;
+    buf_drop(h);
+    n           = h_unhex(t[3], big, sizeof(big));
+    bufconst[h] = malloc(n ? n : 1);
+    memcpy(bufconst[h], big, n);
+    bufs[h] = ares_buf_create_const(bufconst[h], n);
+    puts(bufs[h] ? "ok" : (n == 0 ? "none" : "nomem"));
+    return;
+  }
+  b = bufs[h];
+  if (b == NULL) {
+    puts("bad-handle");
+    return;
+  }
+  if (!strcmp(cmd, "app") && nt == 4) {
+    size_t n = h_unhex(t[3], big, sizeof(big));
+    puts(ststr(ares_buf_append(b, big, n)));
+  } else if (!strcmp(cmd, "be16") && nt == 4) {
+    puts(ststr(ares_buf_append_be16(b, (unsigned short)a1)));
+  } else if (!strcmp(cmd, "be32") && nt == 4) {
+    puts(ststr(ares_buf_append_be32(b, (unsigned int)a1)));
+  } else if (!strcmp(cmd, "fetch") && nt == 4) {
+    if (a1 > sizeof(big) || ares_buf_fetch_bytes(b, big, a1) != ARES_SUCCESS) {
+      puts("err");
+    } else {
+      put_hex_line(big, a1);
+    }
+  } else if (!strcmp(cmd, "fbe16") && nt == 3) {
+    unsigned short v;
+    if (ares_buf_fetch_be16(b, &v) != ARES_SUCCESS) {
+      puts("err");
+    } else {
+      printf("%u\n", (unsigned)v);
+    }
+  } else if (!strcmp(cmd, "fbe32") && nt == 3) {
+    unsigned int v;
+    if (ares_buf_fetch_be32(b, &v) != ARES_SUCCESS) {
+      puts("err");
+    } else {
+      printf("%u\n", v);
+    }
+  } else if (!strcmp(cmd, "consume") && nt == 4) {
+    puts(ststr(ares_buf_consume(b, a1)));
+  } else if (!strcmp(cmd, "tag") && nt == 3) {
+    ares_buf_tag(b);
+    puts("ok");
+  } else if (!strcmp(cmd, "rollback") && nt == 3) {
+    puts(ststr(ares_buf_tag_rollback(b)));
+  } else if (!strcmp(cmd, "tagclear") && nt == 3) {
+    puts(ststr(ares_buf_tag_clear(b)));
+  } else if (!strcmp(cmd, "tagfetch") && nt == 3) {
+    size_t n = sizeof(big);
+    if (ares_buf_tag_fetch_bytes(b, big, &n) != ARES_SUCCESS) {
+      puts("err");
+    } else {
+      put_hex_line(big, n);
+    }
+  } else if (!strcmp(cmd, "taglen") && nt == 3) {
+    printf("%lu\n", (unsigned long)ares_buf_tag_length(b));
+  } else if (!strcmp(cmd, "reclaim") && nt == 3) {
+    ares_buf_reclaim(b);
+    puts("ok");
+  } else if (!strcmp(cmd, "setlen") && nt == 4) {
+    puts(ststr(ares_buf_set_length(b, a1)));
+  } else if (!strcmp(cmd, "len") && nt == 3) {
+    printf("%lu\n", (unsigned long)ares_buf_len(b));
+  } else if (!strcmp(cmd, "peek") && nt == 3) {
+    size_t               n = 0;
+    const unsigned char *p = ares_buf_peek(b, &n);
+    put_hex_line(p, p ? n : 0);
+  } else if (!strcmp(cmd, "setpos") && nt == 4) {
+    puts(ststr(ares_buf_set_position(b, a1)));
+  } else if (!strcmp(cmd, "getpos") && nt == 3) {
+    printf("%lu\n", (unsigned long)ares_buf_get_position(b));
+  } else if (!strcmp(cmd, "ws") && nt == 4) {
+    printf("%lu\n", (unsigned long)ares_buf_consume_whitespace(b, a1 ? ARES_TRUE : ARES_FALSE));
+  } else if (!strcmp(cmd, "nonws") && nt == 3) {
+    printf("%lu\n", (unsigned long)ares_buf_consume_nonwhitespace(b));
+  } else if (!strcmp(cmd, "line") && nt == 4) {
+    printf("%lu\n", (unsigned long)ares_buf_consume_line(b, a1 ? ARES_TRUE : ARES_FALSE));
+  } else if (!strcmp(cmd, "until") && nt == 5) {
+    static unsigned char cs[256];
+    size_t               n = h_unhex(t[3], cs, sizeof(cs));
+    size_t               r = ares_buf_consume_until_charset(b, cs, n, atoi(t[4]) ? ARES_TRUE : ARES_FALSE);
+    if (r == SIZE_MAX) {
+      puts("max");
+    } else {
+      printf("%lu\n", (unsigned long)r);
+    }
+  } else if (!strcmp(cmd, "charset") && nt == 4) {
+    static unsigned char cs[256];
+    size_t               n = h_unhex(t[3], cs, sizeof(cs));
+    printf("%lu\n", (unsigned long)ares_buf_consume_charset(b, cs, n));
+  } else if (!strcmp(cmd, "split") && nt == 6) {
+    static unsigned char ds[256];
+    size_t               n   = h_unhex(t[3], ds, sizeof(ds));
+    ares_array_t        *arr = NULL;
+    ares_status_t        st  = ares_buf_split(b, ds, n, (ares_buf_split_t)atoi(t[4]), (size_t)strtoul(t[5], NULL, 10), &arr);
+    if (st != ARES_SUCCESS) {
+      puts(ststr(st));
+    } else {
+      size_t i, cnt = ares_array_len(arr);
+      fputc('[', stdout);
+      for (i = 0; i < cnt; i++) {
+        ares_buf_t         **sp = ares_array_at(arr, i);
+        size_t               sl = 0;
+        const unsigned char *p  = ares_buf_peek(*sp, &sl);
+        if (i) {
+          fputc(' ', stdout);
+        }
+        h_hex(p, p ? sl : 0);
+      }
+      puts("]");
+      ares_array_destroy(arr);
+    }
+  } else if ((!strcmp(cmd, "finishbin") || !strcmp(cmd, "finishstr")) && nt == 3) {
+    size_t         n   = 0;
+    int            str = !strcmp(cmd, "finishstr");
+    unsigned char *p   = str ? (unsigned char *)ares_buf_finish_str(b, &n) : ares_buf_finish_bin(b, &n);
+    if (p == NULL) {
+      puts("err");
+    } else {
+      bufs[h] = NULL;
+      free(bufconst[h]);
+      bufconst[h] = NULL;
+      if (str && p[n] != 0) {
+        printf("!MON buf-finish-str the string handed out by ares_buf_finish_str is not NUL terminated\n");
+      }
+      put_hex_line(p, n);
+      ares_free(p);
+    }
+  } else {
+    puts("bad-op");
+  }
+}
+
+/* ------------------------------------------------------------------------------------------ skip lists */
+#define MAXN 512
+typedef struct {
+  unsigned long key;
+  int           id;
+} sl_item_t;
+
+static ares_slist_t *slists[MAXH];
+static struct {
+  ares_slist_node_t *node;
+  sl_item_t         *item;
+  int                list;
+} slnodes[MAXN];
+static ares_rand_state *sl_rand = NULL;
+
+/* coin flips of the skip lists: a byte pattern set by `sl rand <hex>` (cyclic); default: an LCG */
+static unsigned char sl_pat[64];
+static size_t        sl_patlen = 0, sl_patpos = 0;
+static unsigned int  sl_lcg    = 12345;
+extern void (*ares_verif_rand_cb)(unsigned char *buf, size_t len);
+
+static void sl_rand_cb(unsigned char *buf, size_t len)
+{
+  size_t i;
+  for (i = 0; i < len; i++) {
+    if (sl_patlen) {
+      buf[i] = sl_pat[sl_patpos++ % sl_patlen];
+    } else {
+      sl_lcg = sl_lcg * 1103515245u + 12345u;
+      buf[i] = (unsigned char)(sl_lcg >> 16);
+    }
+  }
+}
+
+static int sl_cmp(const void *a, const void *b)
+{
+  unsigned long x = ((const sl_item_t *)a)->key, y = ((const sl_item_t *)b)->key;
+  return x < y ? -1 : (x > y ? 1 : 0);
+}
+
+static void sl_reset(void)
+{
+  int i;
+  for (i = 0; i < MAXH; i++) {
+    if (slists[i]) {
+      ares_slist_destroy(slists[i]);
+      slists[i] = NULL;
+    }
+  }
+  for (i = 0; i < MAXN; i++) {
+    free(slnodes[i].item);
+    slnodes[i].item = NULL;
+    slnodes[i].node = NULL;
+  }
+  if (sl_rand) {
+    ares_destroy_rand_state(sl_rand);
+    sl_rand = NULL;
+  }
+  ares_verif_rand_cb = NULL;
+  sl_patlen          = 0;
+  sl_patpos          = 0;
+  sl_lcg             = 12345;
+}
+
+static void sl_dump(ares_slist_t *l, int backward)
+{
+  ares_slist_node_t *n;
+  int                first = 1;
+  fputc('[', stdout);
+  for (n = backward ? ares_slist_node_last(l) : ares_slist_node_first(l); n != NULL;
+       n = backward ? ares_slist_node_prev(n) : ares_slist_node_next(n)) {
+    const sl_item_t *it = ares_slist_node_val(n);
+    printf("%s%d:%lu", first ? "" : " ", it->id, it->key);
+    first = 0;
+  }
+  puts("]");
+}
+
+static void do_sl(int nt, char **t)
+{
+  const char   *cmd = t[1];
+  int           h   = atoi(t[2]);
+  ares_slist_t *l;
+  if (!strcmp(cmd, "rand") && nt == 3) {
+    sl_patlen = h_unhex(t[2], sl_pat, sizeof(sl_pat));
+    sl_patpos = 0;
+    puts("ok");
+    return;
+  }
+  /* node-addressed operations */
+  if (!strcmp(cmd, "rm") || !strcmp(cmd, "setkey") || !strcmp(cmd, "reinsert") || !strcmp(cmd, "next") ||
+      !strcmp(cmd, "prev")) {
+    if (h < 0 || h >= MAXN || slnodes[h].node == NULL) {
+      puts("bad-handle");
+      return;
+    }
+    if (!strcmp(cmd, "rm") && nt == 3) {
+      /* ares_slist_node_claim hands the value back */
+      sl_item_t *it = ares_slist_node_claim(slnodes[h].node);
+      printf("%d\n", it ? it->id : -1);
+      free(slnodes[h].item);
+      slnodes[h].item = NULL;
+      slnodes[h].node = NULL;
+    } else if (!strcmp(cmd, "setkey") && nt == 4) {
+      slnodes[h].item->key = strtoul(t[3], NULL, 10);
+      puts("ok");
+    } else if (!strcmp(cmd, "reinsert") && nt == 3) {
+      ares_slist_node_reinsert(slnodes[h].node);
+      puts("ok");
+    } else if ((!strcmp(cmd, "next") || !strcmp(cmd, "prev")) && nt == 3) {
+      ares_slist_node_t *n = !strcmp(cmd, "next") ? ares_slist_node_next(slnodes[h].node) : ares_slist_node_prev(slnodes[h].node);
+      if (n == NULL) {
+        puts("none");
+      } else {
+        printf("%d\n", ((const sl_item_t *)ares_slist_node_val(n))->id);
+      }
+    } else {
+      puts("bad-op");
+    }
+    return;
+  }
+  if (h < 0 || h >= MAXH) {
+    puts("bad-handle");
+    return;
+  }
+  if (!strcmp(cmd, "new") && nt == 3) {
+    if (slists[h]) {
+      puts("bad-op"); /* the generator never re-creates a live list */
+      return;
+    }
+    if (sl_rand == NULL) {
+      sl_rand = ares_init_rand_state();
+    }
+    ares_verif_rand_cb = sl_rand_cb;
+    slists[h]          = sl_rand ? ares_slist_create(sl_rand, sl_cmp, NULL) : NULL;
+    puts(slists[h] ? "ok" : "nomem");
+    return;
+  }
+  l = slists[h];
+  if (l == NULL) {
+    puts("bad-handle");
+    return;
+  }
+  if (!strcmp(cmd, "ins") && nt == 5) {
+    int n = atoi(t[3]);
+    if (n < 0 || n >= MAXN || slnodes[n].node != NULL) {
+      puts("bad-handle");
+      return;
+    }
+    slnodes[n].item      = malloc(sizeof(sl_item_t));
+    slnodes[n].item->key = strtoul(t[4], NULL, 10);
+    slnodes[n].item->id  = n;
+    slnodes[n].list      = h;
+    slnodes[n].node      = ares_slist_insert(l, slnodes[n].item);
+    if (slnodes[n].node == NULL) {
+      free(slnodes[n].item);
+      slnodes[n].item = NULL;
+      puts("nomem");
+    } else {
+      puts("ok");
+    }
+  } else if (!strcmp(cmd, "find") && nt == 4) {
+    sl_item_t          probe;
+    ares_slist_node_t *n;
+    probe.key = strtoul(t[3], NULL, 10);
+    probe.id  = -1;
+    n         = ares_slist_node_find(l, &probe);
+    if (n == NULL) {
+      puts("none");
+    } else {
+      printf("%d\n", ((const sl_item_t *)ares_slist_node_val(n))->id);
+    }
+  } else if ((!strcmp(cmd, "first") || !strcmp(cmd, "last")) && nt == 3) {
+    const sl_item_t *it = !strcmp(cmd, "first") ? ares_slist_first_val(l) : ares_slist_last_val(l);
+    if (it == NULL) {
+      puts("none");
+    } else {
+      printf("%d\n", it->id);
+    }
+  } else if (!strcmp(cmd, "len") && nt == 3) {
+    printf("%lu\n", (unsigned long)ares_slist_len(l));
+  } else if (!strcmp(cmd, "dumpf") && nt == 3) {
+    sl_dump(l, 0);
+  } else if (!strcmp(cmd, "dumpb") && nt == 3) {
+    sl_dump(l, 1);
+  } else {
+    puts("bad-op");
+  }
+}
+
+/* ------------------------------------------------------------------------------------------ linked lists */
+static ares_llist_t *llists[MAXH];
+static struct {
+  ares_llist_node_t *node;
+  int                seq; /* creation order */
+  int                via_before; /* created by insert_before / insert_after (see ll_reset) */
+} llnodes[MAXN];
+static int ll_seq = 0;
+
+static void ll_reset(void)
+{
+  int i, pass;
+  /* nodes are released one by one before their lists are destroyed, the ones made by insert_before /
+   * insert_after first and newest first: on a tree where those are not linked into the forward chain
+   * (F32-C19) ares_llist_destroy() would not reach them */
+  for (pass = 0; pass < 2; pass++) {
+    for (;;) {
+      int best = -1;
+      for (i = 0; i < MAXN; i++) {
+        if (llnodes[i].node != NULL && (pass == 1 || llnodes[i].via_before) && (best < 0 || llnodes[i].seq > llnodes[best].seq)) {
+          best = i;
+        }
+      }
+      if (best < 0) {
+        break;
+      }
+      ares_llist_node_claim(llnodes[best].node);
+      llnodes[best].node = NULL;
+    }
+  }
+  for (i = 0; i < MAXH; i++) {
+    if (llists[i]) {
+      ares_llist_destroy(llists[i]);
+      llists[i] = NULL;
+    }
+  }
+  ll_seq = 0;
+}
+
+static int ll_list_of(ares_llist_t *l)
+{
+  int i;
+  for (i = 0; i < MAXH; i++) {
+    if (llists[i] == l && l != NULL) {
+      return i;
+    }
+  }
+  return -1;
+}
+
+static void ll_print_node(ares_llist_node_t *n)
+{
+  if (n == NULL) {
+    puts("none");
+  } else {
+    printf("%lu\n", (unsigned long)(size_t)ares_llist_node_val(n));
+  }
+}
+
+static void ll_dump(ares_llist_t *l, int backward)
+{
+  ares_llist_node_t *n;
+  int                first = 1, guard = 0;
+  fputc('[', stdout);
+  for (n = backward ? ares_llist_node_last(l) : ares_llist_node_first(l); n != NULL && guard < 4 * MAXN;
+       n = backward ? ares_llist_node_prev(n) : ares_llist_node_next(n), guard++) {
+    printf("%s%lu", first ? "" : " ", (unsigned long)(size_t)ares_llist_node_val(n));
+    first = 0;
+  }
+  puts("]");
+}
+
+static void ll_register(int n, ares_llist_node_t *node, int via_before)
+{
+  llnodes[n].node       = node;
+  llnodes[n].seq        = ++ll_seq;
+  llnodes[n].via_before = via_before;
+}
+
+static void do_ll(int nt, char **t)
+{
+  const char *cmd = t[1];
+  int         a   = atoi(t[2]);
+  int         b   = nt > 3 ? atoi(t[3]) : -1;
+  /* node-addressed operations: ll <cmd> <node> [...] */
+  if (!strcmp(cmd, "insbefore") || !strcmp(cmd, "insafter") || !strcmp(cmd, "claim") || !strcmp(cmd, "destroy") ||
+      !strcmp(cmd, "mvfirst") || !strcmp(cmd, "mvlast") || !strcmp(cmd, "next") || !strcmp(cmd, "prev") ||
+      !strcmp(cmd, "parent")) {
+    ares_llist_node_t *node;
+    if (a < 0 || a >= MAXN || llnodes[a].node == NULL) {
+      puts("bad-handle");
+      return;
+    }
+    node = llnodes[a].node;
+    if ((!strcmp(cmd, "insbefore") || !strcmp(cmd, "insafter")) && nt == 4) {
+      ares_llist_node_t *nn;
+      if (b < 1 || b >= MAXN || llnodes[b].node != NULL) {
+        puts("bad-handle");
+        return;
+      }
+      nn = !strcmp(cmd, "insbefore") ? ares_llist_insert_before(node, (void *)(size_t)b) :
+                                       ares_llist_insert_after(node, (void *)(size_t)b);
+      if (nn == NULL) {
+        puts("nomem");
+      } else {
+        ll_register(b, nn, 1);
+        puts("ok");
+      }
+    } else if (!strcmp(cmd, "claim") && nt == 3) {
+      void *v         = ares_llist_node_claim(node);
+      llnodes[a].node = NULL;
+      printf("%lu\n", (unsigned long)(size_t)v);
+    } else if (!strcmp(cmd, "destroy") && nt == 3) {
+      ares_llist_node_destroy(node);
+      llnodes[a].node = NULL;
+      puts("ok");
+    } else if ((!strcmp(cmd, "mvfirst") || !strcmp(cmd, "mvlast")) && nt == 4) {
+      if (b < 0 || b >= MAXH || llists[b] == NULL) {
+        puts("bad-handle");
+        return;
+      }
+      if (!strcmp(cmd, "mvfirst")) {
+        ares_llist_node_mvparent_first(node, llists[b]);
+      } else {
+        ares_llist_node_mvparent_last(node, llists[b]);
+      }
+      puts("ok");
+    } else if (!strcmp(cmd, "next") && nt == 3) {
+      ll_print_node(ares_llist_node_next(node));
+    } else if (!strcmp(cmd, "prev") && nt == 3) {
+      ll_print_node(ares_llist_node_prev(node));
+    } else if (!strcmp(cmd, "parent") && nt == 3) {
+      printf("%d\n", ll_list_of(ares_llist_node_parent(node)));
+    } else {
+      puts("bad-op");
+    }
+    return;
+  }
+  if (a < 0 || a >= MAXH) {
+    puts("bad-handle");
+    return;
+  }
+  if (!strcmp(cmd, "new") && nt == 3) {
+    if (llists[a] != NULL) {
+      puts("bad-op");
+      return;
+    }
+    llists[a] = ares_llist_create(NULL);
+    puts(llists[a] ? "ok" : "nomem");
+    return;
+  }
+  if (llists[a] == NULL) {
+    puts("bad-handle");
+    return;
+  }
+  if ((!strcmp(cmd, "insfirst") || !strcmp(cmd, "inslast")) && nt == 4) {
+    ares_llist_node_t *nn;
+    if (b < 1 || b >= MAXN || llnodes[b].node != NULL) {
+      puts("bad-handle");
+      return;
+    }
+    nn = !strcmp(cmd, "insfirst") ? ares_llist_insert_first(llists[a], (void *)(size_t)b) :
+                                    ares_llist_insert_last(llists[a], (void *)(size_t)b);
+    if (nn == NULL) {
+      puts("nomem");
+    } else {
+      ll_register(b, nn, 0);
+      puts("ok");
+    }
+  } else if (!strcmp(cmd, "idx") && nt == 4) {
+    ll_print_node(ares_llist_node_idx(llists[a], (size_t)b));
+  } else if (!strcmp(cmd, "first") && nt == 3) {
+    ll_print_node(ares_llist_node_first(llists[a]));
+  } else if (!strcmp(cmd, "last") && nt == 3) {
+    ll_print_node(ares_llist_node_last(llists[a]));
+  } else if (!strcmp(cmd, "len") && nt == 3) {
+    printf("%lu\n", (unsigned long)ares_llist_len(llists[a]));
+  } else if (!strcmp(cmd, "dumpf") && nt == 3) {
+    ll_dump(llists[a], 0);
+  } else if (!strcmp(cmd, "dumpb") && nt == 3) {
+    ll_dump(llists[a], 1);
+  } else {
+    puts("bad-op");
+  }
+}
+
+static void do_alloc(int nt, char **t)
+{
+  if (nt == 3 && !strcmp(t[1], "failnth")) {
+    a_fail_in = atol(t[2]);
+    puts("ok");
+  } else if (nt == 2 && !strcmp(t[1], "count")) {
+    printf("%lu\n", (unsigned long)a_calls);
+    a_calls = 0;
+  } else {
+    puts("bad-op");
+  }
+}
+
 int main(void)
 {
   char *t[MAXTOK];
   int   nt;
-  ares_library_init(ARES_LIB_INIT_ALL);
+  ares_library_init_mem(ARES_LIB_INIT_ALL, h_malloc, h_free, h_realloc);
   while ((nt = h_next(t)) >= 0) {
     if (nt == 0) {
       puts("");
@@ -150,6 +1197,16 @@ int main(void)
       puts("");
     } else if (!strcmp(t[0], "arr") && nt >= 3) {
       do_arr(nt, t);
+    } else if (!strcmp(t[0], "ht") && nt >= 3) {
+      do_ht(nt, t);
+    } else if (!strcmp(t[0], "buf") && nt >= 3) {
+      do_buf(nt, t);
+    } else if (!strcmp(t[0], "sl") && nt >= 3) {
+      do_sl(nt, t);
+    } else if (!strcmp(t[0], "ll") && nt >= 3) {
+      do_ll(nt, t);
+    } else if (!strcmp(t[0], "alloc")) {
+      do_alloc(nt, t);
     } else {
       puts("bad-op");
     }
